@@ -149,7 +149,41 @@ func (en *c20Env) writeTree(t c20Tree) (string, error) {
 }
 
 func c20One(c *Ctx, en *c20Env, t c20Tree, root string, fl c20Filler, L int) {
+	c20OneOpt(c, en, t, root, fl, L, false)
+}
+
+// c20History, when set, names the repack history the current pack belongs to
+// (it is the replayable input of the case).
+var c20History string
+
+func c20RepackProjects(marker string) []c20Tree {
+	return []c20Tree{c20Trees(marker)[0], c20BigTree("plain", 100), c20BigTree("noise", 40000), c20BigTree("noise", 200000), c20BigTree("plain", 200000)}
+}
+
+// c20RunHistory packs the projects h[0..] one after the other into the same target.
+func c20RunHistory(c *Ctx, en *c20Env, h []int, L int) {
+	projects := c20RepackProjects(en.marker)
+	os.Remove(filepath.Join(en.dir, "target.bin"))
+	defer func() { c20History = "" }()
+	for i, pi := range h {
+		t := projects[pi]
+		root, err := en.writeTree(t)
+		if err != nil {
+			c.res.HarnessErr = err.Error()
+			return
+		}
+		c20History = fmt.Sprintf("repack length=%d projects=%s", L, strings.Trim(strings.Replace(fmt.Sprint(h[:i+1]), " ", ",", -1), "[]"))
+		c20OneOpt(c, en, t, root, c20Fillers[0], L, i > 0)
+	}
+}
+
+// keepTarget: the target path still holds the result of the previous pack
+// (re-packing a project into the same file).
+func c20OneOpt(c *Ctx, en *c20Env, t c20Tree, root string, fl c20Filler, L int, keepTarget bool) {
 	input := fmt.Sprintf("tree=%s filler=%s length=%d", t.name, fl.name, L)
+	if c20History != "" {
+		input = c20History
+	}
 	c.Begin(input)
 	src := filepath.Join(en.dir, "source.bin")
 	dst := filepath.Join(en.dir, "target.bin")
@@ -158,7 +192,9 @@ func c20One(c *Ctx, en *c20Env, t c20Tree, root string, fl c20Filler, L int) {
 		c.res.HarnessErr = err.Error()
 		return
 	}
-	os.Remove(dst)
+	if !keepTarget {
+		os.Remove(dst)
+	}
 	pk := tool.NewCLIPacker()
 	pk.Dir, pk.SourceBinary, pk.TargetBinary = &root, &src, &dst
 	pk.EntryFile = filepath.Join(root, t.entry)
@@ -238,6 +274,40 @@ func c20One(c *Ctx, en *c20Env, t c20Tree, root string, fl c20Filler, L int) {
 }
 
 func init() {
+	register(&Part{Prop: "C20", Name: "repack-histories", Quick: 2, Thor: 2,
+		Desc: "every history of 2 (thorough 3) packs into the SAME target path over 5 projects of very different packed size (entry file only; libraries of 100 / 40000 / 200000 bytes, compressible and incompressible) x 2 source-binary lengths: after every pack the target must be <binary><marker><archive> with every file byte-identical and must run the project packed last",
+		Rule: "all ordered histories; every pack of a history is checked; non-trivial = the packed file was well-formed and was started",
+		Run: func(c *Ctx) {
+			en, err := c20Setup()
+			if err != nil {
+				c.res.HarnessErr = err.Error()
+				return
+			}
+			defer os.RemoveAll(en.dir)
+			nproj := len(c20RepackProjects(en.marker))
+			depth := 2
+			if c.Thorough() {
+				depth = 3
+			}
+			var rec func(h []int)
+			rec = func(h []int) {
+				if len(h) == depth {
+					if !c.Mine() {
+						return
+					}
+					for _, L := range []int{100, 4109} {
+						c20RunHistory(c, en, h, L)
+					}
+					return
+				}
+				for pi := 0; pi < nproj; pi++ {
+					rec(append(append([]int{}, h...), pi))
+				}
+			}
+			rec(nil)
+			c.Sample("pack big-noise-200000, then pack single into the same target: the target runs 'single'")
+		},
+		Replay: func(c *Ctx, in string) { c20Replay(c, in) }})
 	register(&Part{Prop: "C20", Name: "file-size-sweep", Quick: 4, Thor: 4,
 		Desc: "projects whose imported library has exactly s bytes for every s in {2^k-1, 2^k, 2^k+1 : k = 9..17} + {100, 40000, 100000, 200000} (buffer, inflate-window and read-size boundaries) x {compressible, incompressible} content, with the library's only definition at its very end; packed with the real CLIPacker.Pack, unpacked byte-for-byte and started through RunPackedBinary",
 		Rule: "every size of the list x 2 contents x 2 source-binary lengths; non-trivial = the packed file was well-formed and was started",
@@ -316,6 +386,19 @@ func c20Replay(c *Ctx, in string) {
 		return
 	}
 	defer os.RemoveAll(en.dir)
+	if strings.HasPrefix(in, "repack ") {
+		var hl int
+		var ps string
+		fmt.Sscanf(in, "repack length=%d projects=%s", &hl, &ps)
+		var h []int
+		for _, f := range strings.Split(ps, ",") {
+			var x int
+			fmt.Sscan(f, &x)
+			h = append(h, x)
+		}
+		c20RunHistory(c, en, h, hl)
+		return
+	}
 	var tn, fn string
 	var L int
 	fmt.Sscanf(strings.NewReplacer("tree=", "", "filler=", "", "length=", "").Replace(in), "%s %s %d", &tn, &fn, &L)
